@@ -50,6 +50,20 @@ unsafe impl<T> Trace for Reference<T> {
     impl_trace_fields! { self, gc; value }
 }
 
+#[cfg(gluon_verif)]
+impl<T> Reference<T> {
+    /// Looks at the stored value without rooting or copying it
+    pub fn verif_with_value<R>(&self, f: impl FnOnce(crate::Variants) -> R) -> R {
+        let value = self.value.lock().unwrap();
+        f(crate::Variants::new(&value))
+    }
+
+    /// Address of the thread which owns the cell
+    pub fn verif_owner(&self) -> usize {
+        self.thread.verif_addr()
+    }
+}
+
 fn set(r: &Reference<A>, a: Generic<A>) -> IO<()> {
     match r.thread.deep_clone_value(&r.thread, a.get_value()) {
         // SAFETY Rooted when stored in the reference
